@@ -415,7 +415,7 @@ func judgeC12(c c12Case) (v core.Verdict) {
 
 func TestC12(t *testing.T) {
 	core.Run(t, "C12",
-		"template sets (executed file, included file in a sub-directory, imported block library, extended layout, overriding block in the leaf) (a sixth of the cases with percent signs in every template name) with exactly one failing action out of 90 (every class the statement lists, several spellings each, plus errors reported by called functions, one of them wrapping a Go runtime error as its cause) at a generated position: preceded by multi-line text, multi-line comments, trimming actions, other actions on the same line and multi-line ranges, at nesting depth 0-3 inside if/else/range/block/yield-content (also content rendered from inside two declaring lists of the block body); also: send-only channels behind a pointer, in an interface slot and as a defined type; round 10: methods of nil values in slots of interface types that have methods; oracle = no panic, non-nil error, (\"file\":line) equal to the printer's ground truth for self-detected failures, writer content equal to the reference interpreter's output up to the failing action; non-trivial = line>=2 in a file other than the executed one, or nesting depth>=2",
+		"template sets (executed file, included file in a sub-directory, imported block library, extended layout, overriding block in the leaf) (a sixth of the cases with percent signs in every template name) with exactly one failing action out of 90 (every class the statement lists, several spellings each, plus errors reported by called functions, one of them wrapping a Go runtime error as its cause) at a generated position: preceded by multi-line text, multi-line comments, trimming actions, other actions on the same line and multi-line ranges, at nesting depth 0-3 inside if/else/range/block/yield-content (also content rendered from inside two declaring lists of the block body); also: send-only channels behind a pointer, in an interface slot and as a defined type; round 10: methods of nil values in slots of interface types that have methods; round 11: a function that takes no arguments called with some; assignment to entries of a nil map and of a map[int]string; repeat with a negative count; oracle = no panic, non-nil error, (\"file\":line) equal to the printer's ground truth for self-detected failures, writer content equal to the reference interpreter's output up to the failing action; non-trivial = line>=2 in a file other than the executed one, or nesting depth>=2",
 		genC12, judgeC12)
 }
 
